@@ -631,3 +631,24 @@ pub fn entropy_is_finite_u8_p8() {
     assert!(h.is_finite(), "C18: entropy_base2 is not finite");
     assert!(h >= -0.001 && h <= 8.001, "C18: entropy_base2 outside [0, PRECISION]");
 }
+
+macro_rules! generic_concrete_harness {
+    ($name:ident, $P:expr) => {
+        /// C05 (bounded: one concrete 3-symbol table, every quantile): to_generic_decoder_model and
+        /// to_generic_lookup_decoder_model assign every quantile the triple of the original model
+        /// (also at PRECISION == Probability::BITS, where the closing sentinel wraps).
+        #[cfg_attr(kani, kani::proof)]
+        #[cfg_attr(kani, kani::unwind(20))]
+        pub fn $name() {
+            const P: usize = $P;
+            let total: u32 = 1u32 << P;
+            let t: [u8; 2] = [(total / 4) as u8, (total / 2) as u8];
+            let m = ContiguousCategoricalEntropyModel::<u8, Vec<u8>, P>::from_nonzero_fixed_point_probabilities(&t, true).unwrap();
+            let d = m.to_generic_decoder_model();
+            let q: u8 = any(); assume((q as u32) < total);
+            assert!(d.quantile_function(q) == m.quantile_function(q), "C05: to_generic_decoder_model differs from the original model");
+        }
+    };
+}
+generic_concrete_harness!(generic_decoder_concrete_p8, 8);
+generic_concrete_harness!(generic_decoder_concrete_p5, 5);
